@@ -177,8 +177,11 @@ func (r *Registry) GetNoCacheOutputHash(ctx context.Context, target *model.Targe
 			if err != nil {
 				return err
 			}
+			// Tie every digest to the output it belongs to (length-framed definition), otherwise
+			// two outputs that swap their contents would leave the output hash unchanged.
+			outputDefinition := localOutputRef.String()
 			outputsMutex.Lock()
-			digests = append(digests, outputDigest)
+			digests = append(digests, fmt.Sprintf("%d:%s:%s", len(outputDefinition), outputDefinition, outputDigest))
 			outputsMutex.Unlock()
 			return nil
 		})
